@@ -130,5 +130,9 @@ def run_c01(ctx, fa):
 
 
 def run_c02(ctx, fa):
+    from . import p_suite
     model_and_replay(ctx, fa, ("C02.",))
     run(ctx, fa, ("C02.",))
+    # the repository's own tests as inputs: every schemaless_writer call they make, judged by MatchCanon
+    if not ctx.quick():
+        p_suite.run(ctx, {"t_sl_write"}, ("C02.",))
